@@ -26,10 +26,13 @@ class RichUprpEditor:
         new_cuwp_slots = [cuwp for cuwp in uprp.cuwp_slots]
         # CUWP equality ignores the index, so this finds any equal CUWP already placed
         cuwps_already_in_uprp = set(uprp.cuwp_slots)
+        # ids placed so far, including the ones added in this call
+        allocated_ids = lookup.get_ids()
         for i, cuwp_to_add in enumerate(unique_cuwps):
             if cuwp_to_add.index is not None:
                 self._throw_if_id_is_out_of_range(cuwp_to_add.index)
-                if not lookup.get_cuwp_by_id(cuwp_to_add.index):
+                if cuwp_to_add.index not in allocated_ids:
+                    allocated_ids.add(cuwp_to_add.index)
                     new_cuwp_slots.append(
                         self._build_new_cuwp_slot_with_index(
                             cuwp_to_add, cuwp_to_add.index
@@ -42,7 +45,6 @@ class RichUprpEditor:
                         f"Attempted to add a CUWP to the UPRP whose id {cuwp_to_add.index} "
                         f"is already allocated.  "
                         f"Not replacing.  "
-                        f"Current CUWP: {lookup.get_cuwp_by_id(cuwp_to_add.index)}, "
                         f"Attempted replacement: {cuwp_to_add}"
                     )
             elif cuwp_to_add in cuwps_already_in_uprp:
